@@ -28,6 +28,9 @@ from harness import core, tlaval
 from harness import thr_foreign as TF
 
 LEVEL = "model_checking"
+# short TLC runs: few GC threads and the C1 compiler only (halves the CPU time of a JVM start)
+JLIGHT = {"JAVA_TOOL_OPTIONS": "-XX:ParallelGCThreads=2 -XX:TieredStopAtLevel=1"}
+JHEAVY = {"JAVA_TOOL_OPTIONS": "-XX:ParallelGCThreads=4"}
 VARIANTS = ("nokeepalive", "nofree", "nolock", "nonull", "nodetach")
 INVS = ("NoErr", "ZombiesOK", "CanaryPtrOK", "BodyOK", "AccountOK")
 ACTIONS = ("Spawn", "Ge1", "Ge2", "Ge3", "Ge5", "Ge6", "Fz0", "Fz1", "Fz2", "Fz3", "Cd1", "Cd2", "Fz4", "Rg1",
@@ -232,7 +235,7 @@ def validate(ctx, traces):
     bad = []
     for base in range(0, len(traces), 1000):
         chunk = traces[base:base + 1000]
-        tups = core.tlc_verdicts(ctx, "Trace_ThreadState", chunk, timeout=1800)
+        tups = core.tlc_verdicts(ctx, "Trace_ThreadState", chunk, timeout=1800, extra_env=JLIGHT)
         verdicts = {int(x[0]): (core.unq(x[1]), int(x[2])) for x in tups}
         if len(verdicts) != len(chunk):
             raise core.MachineryError("trace validation incomplete: %d verdicts for %d traces" % (
@@ -301,6 +304,12 @@ def execute(ctx, libdir, behs, per_child, pool, tag, leave_running):
     out = []
     for ch, fu in zip(chunks, futs):
         rc, res, progress, err = fu.result()
+        if rc == "timeout":
+            # the budget of a whole sub-process depends on the load of the machine: never a verdict.
+            # (A single step that is not acknowledged within 120 s makes the child itself give up:
+            # that is the explicit liveness verdict, reported as crash:* below.)
+            raise core.MachineryError("sub-process %s exceeded its time budget; last progress: %r" % (
+                tag, [p for p in progress if p][-1:]))
         got = {r["id"]: r["events"] for r in (res or {}).get("results", [])}
         crashed = rc != 0 or res is None or not res.get("complete")
         for b in ch:
@@ -333,13 +342,14 @@ def run(ctx):
     pool = concurrent.futures.ThreadPoolExecutor(6)
     djobs = design_jobs(ctx)
     dfut = [pool.submit(core.tlc, "ThreadState", cfg_text=text, workers=(1 if kind == "bad" else 3 if quick else 6),
-                        coverage=(kind == "cov"), timeout=900 if quick else 3000) for name, text, kind in djobs]
+                        coverage=(kind == "cov"), timeout=900 if quick else 3000,
+                        env=JLIGHT if (quick or kind == "bad") else JHEAVY) for name, text, kind in djobs]
     gconfs = [([1, 2], 2), ([1, 2, 3], 1)] if quick else [([1, 2], 2), ([1, 2, 3], 2)]
     gfut = []
     for foreign, mc in gconfs:
         dump = os.path.join(ctx.tmp, "atomic_%d_%d" % (len(foreign), mc))
         gfut.append((dump, pool.submit(core.tlc, "ThreadState", cfg_text=cfg(foreign, mc, 1, 0, atomic=True, check=False),
-                                       dump=dump, workers=2, timeout=1500)))
+                                       dump=dump, workers=2, timeout=1500, env=JLIGHT)))
     libdir = TF.build(ctx.tmp)
     cpool = concurrent.futures.ThreadPoolExecutor(4 if quick else 8)
     # ---- (b) random histories with free-running threads (need no TLC output)
@@ -426,23 +436,31 @@ def run(ctx):
 
 
 def replay(ctx, obj):
+    """Re-executes the stored behaviour in a fresh sub-process on the current tree and validates the
+    new history (the verdict); the recorded history is re-validated for information."""
     rp = obj["replay"]
     ctx.cov["states"] = ctx.cov["transitions"] = 1
     libdir = TF.build(ctx.tmp)
     beh = rp["behaviour"]
     pool = concurrent.futures.ThreadPoolExecutor(1)
     res = execute(ctx, libdir, [dict(beh, preds=None)], 1, pool, "replay", False)
-    traces = [rp["trace"]] if rp.get("trace") else []
+    traces = []
     for b, events, crash in res:
         if crash is not None:
             ctx.violation(obj["key"], CLAUSE["crash"], rp)
-            print("replayed: the process crashed again (%r)" % (crash["status"],))
+            print("replayed: the process failed again (status %r)" % (crash["status"],))
         elif events is not None:
             traces.append(to_trace(events))
+    nnew = len(traces)
+    if rp.get("trace"):
+        traces.append(rp["trace"])
     bad = validate(ctx, traces) if traces else []
     for k, v, pos in bad:
-        ctx.violation(obj["key"], CLAUSE.get(v, v), rp)
-    print("replayed: %d histories validated, %d rejected by the ideal" % (len(traces), len(bad)))
+        if k < nnew:
+            ctx.violation(obj["key"], CLAUSE.get(v, v), rp)
+    print("replayed: re-execution on the current tree %s; the recorded history is %s" % (
+        "REJECTED by the ideal" if any(k < nnew for k, _, _ in bad) else "accepted" if nnew else "not available",
+        "rejected by the ideal" if any(k >= nnew for k, _, _ in bad) else "accepted or absent"))
 
 
 def selftest(ctx):
